@@ -1752,6 +1752,35 @@ fn c14_enum(chk: &StepCheck, cx: &mut Ctx) {
             cx.stats.exhaustive_parts.insert("a saved stack of 70 000 levels (built unjudged), then one more push and four pops judged in full".into());
         }
     }
+    // screens whose dimensions do not fit in 16 bits (round 13): a savepoint far down / far right,
+    // then a region or a size that agrees with the old one in its low 16 bits (or is off by one,
+    // or is just small), then DECRC - the clamp into the CURRENT screen and region must happen
+    // whatever two geometries look alike in a packed or narrowed key
+    for (gi, (c, l)) in [(3u32, 70_000u32), (70_000, 2)].iter().enumerate() {
+        if !cx.mine(3 + gi as u64) || !cx.begin_group(&format!("beyond 16 bits {}x{}", c, l)) {
+            continue;
+        }
+        let (c, l) = (*c, *l);
+        if let Some((base, pre)) = reach(cx, c, l, &[]) {
+            let big = c.max(l);
+            let low = big - 65_536; // same low 16 bits as `big`
+            let mut cands: Vec<Cand> = Vec::new();
+            let far = 60_000u32;
+            let goto = if l > c { Call::CursorPosition(Some(far), Some(2)) } else { Call::CursorPosition(Some(1), Some(far)) };
+            for n in [low - 1, low, low + 1, 100, 65_535, 65_536, 65_537] {
+                // region with the bottom at n (DECSTBM takes what the parser could deliver and more
+                // through the API; the region is clamped to the screen anyway)
+                if l > c {
+                    cands.push(Cand { ops: vec![Op::Api(goto.clone()), Op::Api(Call::SaveCursor), Op::Api(Call::SetMargins(Some(2), Some(n))), Op::Api(Call::RestoreCursor), Op::Api(Call::RestoreCursor)] });
+                }
+                // the size itself shrunk to n in the long dimension
+                let rs = if l > c { Call::Resize(Some(n), Some(c)) } else { Call::Resize(Some(l), Some(n)) };
+                cands.push(Cand { ops: vec![Op::Api(goto.clone()), Op::Api(Call::Sgr(vec![1, 33])), Op::Api(Call::SaveCursor), Op::Api(rs), Op::Api(Call::RestoreCursor), Op::Api(Call::RestoreCursor)] });
+            }
+            fan_out(cx, chk.id, &chk.owns, c, l, &[], &base, &pre, &cands);
+            cx.stats.exhaustive_parts.insert("3x70000 and 70000x2 screens: savepoint at 60 000, then a region / a size equal to the old one modulo 65 536 (+-1), 100, 65 535..65 537, then DECRC twice".into());
+        }
+    }
 }
 
 pub static C14: StepCheck = StepCheck {
